@@ -209,6 +209,11 @@ class _LegacyRecordBatchPy(LegacyRecordBase, LegacyRecordBatchProtocol):
         buffer_len = len(self._buffer)
         while pos < buffer_len:
             header = self._read_header(pos)
+            if header[1] < self.RECORD_OVERHEAD_V0:
+                raise CorruptRecordException(
+                    "Record size is less than the minimum record overhead "
+                    f"({self.RECORD_OVERHEAD_V0})"
+                )
             msgs.append((header, pos))
             pos += self.LOG_OVERHEAD + header[1]  # length
         return msgs
